@@ -24,7 +24,12 @@ D4 interface with the producer (what the consumer's rules take for granted about
    function that only hands it down - an omitted argument counts as the parameter's default - to the function that
    emits both edges, compared there by reaching definitions on paths through the start call); a class that writes
    trace records never has two open handles on the configured path itself (line order of a file = emission order,
-   the reason why only the rows with the start record seen are constrained in D3).
+   the reason why only the rows with the start record seen are constrained in D3); every value written into a record
+   field the aggregator orders as a string (fields found from the ordering comparisons of the ingest functions and
+   finalize_run, producers followed from the record builders through locals / parameters / helper results) is a
+   fixed-width rendering of the clock, the same number of fraction digits everywhere (text order = time order).
+D3+ the launch roll-up: the counting loop over the launch's runs is passed on every CFG path to the construction of
+   the verdict of a known launch, and the counter it fills is what the verdict's summary carries.
 """
 from __future__ import annotations
 
@@ -45,6 +50,7 @@ from ..engine import (
     kwarg,
     norm,
     parent,
+    returned_values,
     stmt_of,
     walk_no_nested,
 )
@@ -1841,37 +1847,65 @@ def record_fields_read(exprs: List[ast.AST], rec: str) -> Set[str]:
     return out
 
 
-def record_builders(repo: Repo, T: str, skip_pkg: str) -> List[Tuple[object, str, ast.AST, ast.AST, Dict[str, List[ast.AST]]]]:
-    """Functions of the package (outside the aggregation package) that build a record of type *T*: a dict literal /
-    ``dict(..)`` call whose ``record_type`` is the constant T.  Gives (module, qualname, function, literal, field ->
-    value expressions) with later ``<holder>[field] = value`` stores added."""
+def _record_sites(repo: Repo, skip_pkg: str) -> List[Tuple[str, str, object, str, ast.AST, ast.AST, Dict[str, List[ast.AST]]]]:
+    """One pass over the package (cached per tree): every dict literal / ``dict(..)`` call (kind "dict") and every other
+    call (kind "ctor") that carries a constant ``record_type``: (kind, type, module, qualname, function, node, items)."""
+    cache = repo.__dict__.setdefault("_c13_record_sites", {})
+    if skip_pkg in cache:
+        return cache[skip_pkg]
     out = []
     for mod, qn, fn in repo.all_functions():
         if mod.rel.startswith(skip_pkg):
             continue
         for n in walk_no_nested(fn):
             items: Optional[Dict[str, List[ast.AST]]] = None
+            kind = "dict"
             if isinstance(n, ast.Dict):
                 items = {k.value: [v] for k, v in zip(n.keys, n.values) if isinstance(k, ast.Constant) and isinstance(k.value, str)}
             elif isinstance(n, ast.Call) and call_name(n) == "dict" and not n.args:
                 items = {k.arg: [k.value] for k in n.keywords if k.arg}
+            elif isinstance(n, ast.Call) and n.keywords:
+                items = {k.arg: [k.value] for k in n.keywords if k.arg}
+                kind = "ctor"
             tv = (items or {}).get(TYPE_FIELD)
-            if not (tv and isinstance(tv[0], ast.Constant) and tv[0].value == T):
+            if not (tv and isinstance(tv[0], ast.Constant) and isinstance(tv[0].value, str)):
                 continue
-            par = parent(n)
-            holder = None
-            if isinstance(par, ast.Assign) and len(par.targets) == 1 and isinstance(par.targets[0], ast.Name):
-                holder = par.targets[0].id
-            elif isinstance(par, ast.AnnAssign) and isinstance(par.target, ast.Name):
-                holder = par.target.id
-            if holder is not None:
-                for st in walk_no_nested(fn):
-                    if isinstance(st, ast.Assign):
-                        for t in st.targets:
-                            if isinstance(t, ast.Subscript) and isinstance(t.value, ast.Name) and t.value.id == holder and isinstance(t.slice, ast.Constant) and isinstance(t.slice.value, str):
-                                items.setdefault(t.slice.value, []).append(st.value)
-            out.append((mod, qn, fn, n, items))
+            if kind == "dict":
+                par = parent(n)
+                holder = None
+                if isinstance(par, ast.Assign) and len(par.targets) == 1 and isinstance(par.targets[0], ast.Name):
+                    holder = par.targets[0].id
+                elif isinstance(par, ast.AnnAssign) and isinstance(par.target, ast.Name):
+                    holder = par.target.id
+                if holder is not None:
+                    for st in walk_no_nested(fn):
+                        if isinstance(st, ast.Assign):
+                            for t in st.targets:
+                                if isinstance(t, ast.Subscript) and isinstance(t.value, ast.Name) and t.value.id == holder and isinstance(t.slice, ast.Constant) and isinstance(t.slice.value, str):
+                                    items.setdefault(t.slice.value, []).append(st.value)
+            out.append((kind, tv[0].value, mod, qn, fn, n, items))
+    cache[skip_pkg] = out
     return out
+
+
+def record_builders(repo: Repo, T: str, skip_pkg: str) -> List[Tuple[object, str, ast.AST, ast.AST, Dict[str, List[ast.AST]]]]:
+    """Functions of the package (outside the aggregation package) that build a record of type *T*: a dict literal /
+    ``dict(..)`` call whose ``record_type`` is the constant T.  Gives (module, qualname, function, literal, field ->
+    value expressions) with later ``<holder>[field] = value`` stores added."""
+    return [(mod, qn, fn, n, items) for kind, t, mod, qn, fn, n, items in _record_sites(repo, skip_pkg) if kind == "dict" and t == T]
+
+
+def _calls_named(repo: Repo, name: str) -> List[Tuple[object, str, ast.AST, ast.Call]]:
+    """(module, qualname, function, call) of every call in the package whose callee is spelled *name* (cached per tree)."""
+    idx = repo.__dict__.get("_c13_calls_by_name")
+    if idx is None:
+        idx = repo.__dict__["_c13_calls_by_name"] = {}
+        for cm, cqn, cfn in repo.all_functions():
+            for c in calls_in(cfn):
+                nm = c.func.attr if isinstance(c.func, ast.Attribute) else c.func.id if isinstance(c.func, ast.Name) else None
+                if nm is not None:
+                    idx.setdefault(nm, []).append((cm, cqn, cfn, c))
+    return idx.get(name, [])
 
 
 def _own_params(fn: ast.AST) -> List[str]:
@@ -1900,21 +1934,19 @@ def field_terminals(repo: Repo, mod, qn: str, fn: ast.AST, e: ast.AST, call: Opt
         a = fn.args
         default_nodes = [d for d in list(a.defaults) + list(a.kw_defaults) if d is not None]
         out: List[_Terminal] = []
-        for cm, cqn, cfn in repo.all_functions():
-            for c in calls_in(cfn):
-                nm = c.func.attr if isinstance(c.func, ast.Attribute) else c.func.id if isinstance(c.func, ast.Name) else None
-                if nm != fn.name or cfn is fn:
-                    continue
-                if _is_method(fn) != isinstance(c.func, ast.Attribute):
-                    continue
-                b = bind_call(fn, c)
-                if b is None or e.id not in b:
-                    continue
-                arg = b[e.id]
-                if any(arg is d for d in default_nodes):
-                    out.append(_Terminal(cm, cqn, cfn, c, arg, f"{qn}({e.id}={ast.unparse(arg)})", chain + (qn,)))
-                else:
-                    out += field_terminals(repo, cm, cqn, cfn, arg, c, chain + (qn,), seen, depth + 1)
+        for cm, cqn, cfn, c in _calls_named(repo, fn.name):
+            if cfn is fn:
+                continue
+            if _is_method(fn) != isinstance(c.func, ast.Attribute):
+                continue
+            b = bind_call(fn, c)
+            if b is None or e.id not in b:
+                continue
+            arg = b[e.id]
+            if any(arg is d for d in default_nodes):
+                out.append(_Terminal(cm, cqn, cfn, c, arg, f"{qn}({e.id}={ast.unparse(arg)})", chain + (qn,)))
+            else:
+                out += field_terminals(repo, cm, cqn, cfn, arg, c, chain + (qn,), seen, depth + 1)
         return out
     return [_Terminal(mod, qn, fn, call, e, None, chain)]
 
@@ -2124,6 +2156,270 @@ def check_one_handle_per_file(R: Report, rule: str, repo: Repo) -> None:
 
 
 
+_REC = "<record>"
+
+
+def record_read_paths(e: Optional[ast.AST], rec: str, local_value, attr_paths: Dict[str, Set[Tuple[str, ...]]], depth: int = 0) -> Set[Tuple[str, ...]]:
+    """Paths of constant keys under which *e* reads a value out of a record *as it is* (no conversion on the way):
+    ``rec.get("timestamp") or (rec.get("timing") or {}).get("started_at")`` ->
+    {("<record>", "timestamp"), ("<record>", "timing", "started_at")}.  *local_value(name)*: the expressions a local
+    stands for; *attr_paths*: aggregate fields known to hold such a value, with the record type in place of the
+    marker (``node.timing`` holds ("ser", "timing"))."""
+    if e is None or depth > 8:
+        return set()
+    if isinstance(e, ast.Name):
+        if e.id == rec:
+            return {(_REC,)}
+        out: Set[Tuple[str, ...]] = set()
+        for v in local_value(e.id):
+            out |= record_read_paths(v, rec, local_value, attr_paths, depth + 1)
+        return out
+    if isinstance(e, ast.BoolOp):
+        return {p for v in e.values for p in record_read_paths(v, rec, local_value, attr_paths, depth + 1)}
+    if isinstance(e, ast.IfExp):
+        return record_read_paths(e.body, rec, local_value, attr_paths, depth + 1) | record_read_paths(e.orelse, rec, local_value, attr_paths, depth + 1)
+    if isinstance(e, ast.NamedExpr):
+        return record_read_paths(e.value, rec, local_value, attr_paths, depth + 1)
+    if isinstance(e, ast.Call) and isinstance(e.func, ast.Attribute) and e.func.attr == "get" and 1 <= len(e.args) <= 2 and not e.keywords and isinstance(e.args[0], ast.Constant) and isinstance(e.args[0].value, str):
+        return {p + (e.args[0].value,) for p in record_read_paths(e.func.value, rec, local_value, attr_paths, depth + 1)}
+    if isinstance(e, ast.Subscript) and isinstance(e.slice, ast.Constant) and isinstance(e.slice.value, str):
+        return {p + (e.slice.value,) for p in record_read_paths(e.value, rec, local_value, attr_paths, depth + 1)}
+    if isinstance(e, ast.Attribute) and e.attr in attr_paths and not (isinstance(e.value, ast.Name) and e.value.id == "self"):
+        return set(attr_paths[e.attr])
+    return set()
+
+
+def ordered_operands(fn: ast.AST) -> List[ast.AST]:
+    """Operands of the ordering comparisons of *fn* and the arguments of two-argument min / max calls."""
+    out: List[ast.AST] = []
+    for n in ast.walk(fn):
+        if isinstance(n, ast.Compare):
+            operands = [n.left] + list(n.comparators)
+            for i, op in enumerate(n.ops):
+                if isinstance(op, (ast.Lt, ast.Gt, ast.LtE, ast.GtE)):
+                    out += [operands[i], operands[i + 1]]
+        elif isinstance(n, ast.Call) and call_name(n) in ("min", "max") and len(n.args) == 2 and not n.keywords:
+            out += list(n.args)
+    return out
+
+
+def typed_record_builders(repo: Repo, T: str, skip_pkg: str) -> List[Tuple[object, str, ast.AST, ast.AST, Dict[str, List[ast.AST]]]]:
+    """``record_builders`` plus the calls that build a record object with the keyword ``record_type=T`` (a record class)."""
+    return [(mod, qn, fn, n, items) for _kind, t, mod, qn, fn, n, items in _record_sites(repo, skip_pkg) if t == T]
+
+
+def value_sources(repo: Repo, mod, fn: ast.AST, e: ast.AST, seen: Set[Tuple[int, str]], depth: int = 0) -> List[Tuple[object, ast.AST, ast.AST]]:
+    """Where the value of *e* (evaluated in *fn*) is computed: followed through locals (tuple unpacking included),
+    through parameters to the argument of every caller, and through calls of functions of the package to what they
+    return.  Gives (module, function, expression) triples; an expression that cannot be followed further is given as
+    it is."""
+    key = (id(fn), _d(e))
+    if key in seen or depth > 10:
+        return []
+    seen.add(key)
+    if isinstance(e, ast.IfExp):
+        return value_sources(repo, mod, fn, e.body, seen, depth + 1) + value_sources(repo, mod, fn, e.orelse, seen, depth + 1)
+    if isinstance(e, ast.BoolOp):
+        return [s for v in e.values for s in value_sources(repo, mod, fn, v, seen, depth + 1)]
+    if isinstance(e, ast.NamedExpr):
+        return value_sources(repo, mod, fn, e.value, seen, depth + 1)
+    if isinstance(e, ast.Name):
+        out: List[Tuple[object, ast.AST, ast.AST]] = []
+        bound = False
+        for v in assigned_value(fn, e.id):
+            bound = True
+            out += value_sources(repo, mod, fn, v, seen, depth + 1)
+        for n in walk_no_nested(fn):
+            if not isinstance(n, ast.Assign):
+                continue
+            for t in n.targets:
+                if isinstance(t, (ast.Tuple, ast.List)) and not any(isinstance(x, ast.Starred) for x in t.elts):
+                    for i, x in enumerate(t.elts):
+                        if isinstance(x, ast.Name) and x.id == e.id:
+                            bound = True
+                            if isinstance(n.value, (ast.Tuple, ast.List)) and len(n.value.elts) == len(t.elts):
+                                out += value_sources(repo, mod, fn, n.value.elts[i], seen, depth + 1)
+                            elif isinstance(n.value, ast.Call):
+                                for m2, callee in repo.resolve_call(mod, n.value):
+                                    if isinstance(callee, FuncNode):
+                                        for rv in returned_values(callee):
+                                            if isinstance(rv, ast.Tuple) and len(rv.elts) == len(t.elts):
+                                                out += value_sources(repo, m2, callee, rv.elts[i], seen, depth + 1)
+        if bound:
+            return out
+        if e.id in _own_params(fn) and not _rebound(fn, e.id):
+            a = fn.args
+            default_nodes = [d for d in list(a.defaults) + list(a.kw_defaults) if d is not None]
+            for cm, _cqn, cfn, c in _calls_named(repo, fn.name):
+                if cfn is fn or _is_method(fn) != isinstance(c.func, ast.Attribute):
+                    continue
+                b = bind_call(fn, c)
+                if b is None or e.id not in b:
+                    continue
+                if any(b[e.id] is d for d in default_nodes):
+                    out.append((mod, fn, b[e.id]))
+                else:
+                    out += value_sources(repo, cm, cfn, b[e.id], seen, depth + 1)
+            return out or [(mod, fn, e)]
+        return [(mod, fn, e)]
+    if isinstance(e, ast.Call):
+        targets = [(m2, t) for m2, t in repo.resolve_call(mod, e) if isinstance(t, FuncNode)]
+        if targets:
+            out = []
+            for m2, callee in targets:
+                for rv in returned_values(callee):
+                    out += value_sources(repo, m2, callee, rv, seen, depth + 1)
+            return out
+    return [(mod, fn, e)]
+
+
+_FRACTION_DIGITS = {"seconds": 0, "milliseconds": 3, "microseconds": 6}
+
+
+def time_text_width(fn: ast.AST, e: ast.AST, depth: int = 0) -> Tuple[Optional[bool], str, Optional[int]]:
+    """Is the text *e* a rendering of an instant whose width does not depend on the instant?  (verdict, reason when
+    not, digits of the fraction of a second when known).  verdict None: not a recognised rendering of a clock reading."""
+    if depth > 8:
+        return None, "", None
+    if isinstance(e, ast.Name):
+        vals = assigned_value(fn, e.id)
+        return time_text_width(fn, vals[0], depth + 1) if len(vals) == 1 else (None, "", None)
+    if isinstance(e, ast.Call) and isinstance(e.func, ast.Name) and e.func.id == "str" and len(e.args) == 1 and not e.keywords:
+        return time_text_width(fn, e.args[0], depth + 1)
+    def combine(parts: List[Tuple[Optional[bool], str, Optional[int]]]) -> Tuple[Optional[bool], str, Optional[int]]:
+        """Concatenation: one piece of varying width spoils the text; the digits of the fraction add up."""
+        bad = next((p for p in parts if p[0] is False), None)
+        if bad:
+            return bad
+        if not parts or not all(p[0] is True for p in parts):
+            return None, "", None
+        return True, "", (sum(p[2] for p in parts) if all(p[2] is not None for p in parts) else None)
+
+    if isinstance(e, ast.BinOp) and isinstance(e.op, ast.Add):
+        flat: List[ast.AST] = []
+
+        def pieces(x: ast.AST) -> None:
+            if isinstance(x, ast.BinOp) and isinstance(x.op, ast.Add):
+                pieces(x.left)
+                pieces(x.right)
+            else:
+                flat.append(x)
+
+        pieces(e)
+        return combine([time_text_width(fn, x, depth + 1) for x in flat if not (isinstance(x, ast.Constant) and isinstance(x.value, str))])
+    if isinstance(e, ast.JoinedStr):
+        parts = []
+        for v in e.values:
+            if not isinstance(v, ast.FormattedValue):
+                continue
+            if v.conversion != -1:
+                return None, "", None
+            if v.format_spec is None:
+                parts.append(time_text_width(fn, v.value, depth + 1))
+                continue
+            spec = "".join(c.value for c in v.format_spec.values if isinstance(c, ast.Constant) and isinstance(c.value, str)) if all(isinstance(c, ast.Constant) for c in v.format_spec.values) else None
+            if spec is None:
+                return None, "", None
+            if "%" in spec:  # a datetime formatted with strftime directives
+                parts.append((True, "", 6 if "%f" in spec else 0) if "%-" not in spec and "%#" not in spec else (None, "", None))
+            elif len(spec) >= 2 and spec[0] == "0" and spec.rstrip("d")[1:].isdigit():
+                parts.append((True, "", int(spec.rstrip("d")[1:])))  # a zero-padded number: the hand-made fraction
+            else:
+                return None, "", None
+        return combine(parts)
+    if isinstance(e, ast.IfExp):
+        a, b = time_text_width(fn, e.body, depth + 1), time_text_width(fn, e.orelse, depth + 1)
+        for p in (a, b):
+            if p[0] is False:
+                return p
+        return (True, "", a[2] if a[2] == b[2] else None) if a[0] is True and b[0] is True else (None, "", None)
+    if isinstance(e, ast.Subscript) and isinstance(e.slice, ast.Slice):
+        inner = time_text_width(fn, e.value, depth + 1)
+        sl = e.slice
+        cut = sl.upper.operand.value if sl.lower is None and sl.step is None and isinstance(sl.upper, ast.UnaryOp) and isinstance(sl.upper.op, ast.USub) and isinstance(sl.upper.operand, ast.Constant) and isinstance(sl.upper.operand.value, int) else None
+        return inner[0], inner[1], (inner[2] - cut if inner[2] is not None and cut is not None and 0 <= cut <= inner[2] else None)
+    if isinstance(e, ast.Call) and isinstance(e.func, ast.Attribute):
+        m = e.func.attr
+        if m == "replace" and len(e.args) == 2 and all(isinstance(a, ast.Constant) and isinstance(a.value, str) for a in e.args):
+            return time_text_width(fn, e.func.value, depth + 1)  # a constant piece exchanged for a constant piece
+        if m == "isoformat":
+            recv = e.func.value
+            if isinstance(recv, ast.Name):
+                vals = assigned_value(fn, recv.id)
+                recv = vals[0] if len(vals) == 1 else recv
+            whole_seconds = False
+            for x in ast.walk(recv):
+                if isinstance(x, ast.Call) and isinstance(x.func, ast.Attribute):
+                    ms = kwarg(x, "microsecond")
+                    if x.func.attr == "replace" and isinstance(ms, ast.Constant) and ms.value == 0:
+                        whole_seconds = True
+                    if x.func.attr == "date" and not x.args:
+                        whole_seconds = True
+            ts = kwarg(e, "timespec") or (e.args[1] if len(e.args) > 1 else None)
+            if ts is None or (isinstance(ts, ast.Constant) and ts.value == "auto"):
+                if whole_seconds:
+                    return True, "", 0
+                return False, "`isoformat()` without an explicit timespec renders no fraction of a second when microsecond == 0 and six digits otherwise: the width of the text depends on the instant", None
+            if isinstance(ts, ast.Constant) and isinstance(ts.value, str):
+                return True, "", _FRACTION_DIGITS.get(ts.value)
+            return None, "", None
+        if m == "strftime":
+            fmts = [a.value for a in e.args if isinstance(a, ast.Constant) and isinstance(a.value, str)]
+            if len(fmts) == 1 and "%-" not in fmts[0] and "%#" not in fmts[0]:
+                return True, "", 6 if "%f" in fmts[0] else 0 if "%S" in fmts[0] else None
+            return None, "", None
+    return None, "", None
+
+
+def check_time_text_order(R: Report, rule: str, repo: Repo, ordered: Set[Tuple[str, Tuple[str, ...]]]) -> None:
+    """The aggregator orders the time stamps of the records as they come (`<` / `>` on the strings, min / max merges,
+    `start > end`).  Text order is time order only for renderings of one fixed width: every value the runtime writes
+    into a field the aggregator orders is followed from the record builders (constant record_type) to the expression
+    that renders the clock reading, and that rendering has a width that does not depend on the instant; all of them
+    render the same number of digits for the fraction of a second."""
+    pkg = AGG.rsplit("/", 1)[0] + "/"
+    if not ordered:
+        raise AnalysisError("no record field that the aggregator orders as read from the record was found (timestamp / timing.started_at / timing.finished_at confirmed by reading)")
+    judged: Dict[Tuple[str, str, str], Tuple[object, ast.AST, ast.AST, Tuple[Optional[bool], str, Optional[int]], str]] = {}
+    for T in sorted({t for t, _p in ordered}):
+        builders = typed_record_builders(repo, T, pkg)
+        for path in sorted(p for t, p in ordered if t == T and p):
+            for mod, qn, fn, lit, items in builders:
+                level: List[Tuple[object, ast.AST, ast.AST]] = [(mod, fn, v) for v in items.get(path[0], [])]
+                for key in path[1:]:
+                    nxt: List[Tuple[object, ast.AST, ast.AST]] = []
+                    for m_, f_, v in level:
+                        for m2, f2, src in value_sources(repo, m_, f_, v, set()):
+                            if isinstance(src, ast.Dict):
+                                nxt += [(m2, f2, val) for k, val in zip(src.keys, src.values) if isinstance(k, ast.Constant) and k.value == key]
+                            elif isinstance(src, ast.Call) and call_name(src) == "dict" and not src.args:
+                                nxt += [(m2, f2, k.value) for k in src.keywords if k.arg == key]
+                    level = nxt
+                for m_, f_, v in level:
+                    for m2, f2, src in value_sources(repo, m_, f_, v, set()):
+                        if isinstance(src, ast.Constant):
+                            continue  # a placeholder ("" before the clock is read), not a rendering
+                        from ..engine import qualname_of
+                        k3 = (m2.rel, qualname_of(f2), _d(src))
+                        if k3 not in judged:
+                            judged[k3] = (m2, f2, src, time_text_width(f2, src), f"{T}.{'.'.join(path)}")
+    digits: Dict[int, Tuple[str, str, ast.AST]] = {}
+    for (rel, qn, _dump), (m2, f2, src, (verdict, why, dig), field) in sorted(judged.items(), key=lambda kv: kv[0]):
+        if verdict is None:
+            continue
+        repo.consulted.add(rel)
+        st = stmt_of(src) if not isinstance(src, ast.stmt) else src
+        R.check(verdict, rule, rel, qn, norm(st, 110), f"this text is written into `{field}` of the trace records, and the aggregator orders those values as strings (min / max merges of the run's start and end, `start_timestamp > end_timestamp`): {why}, so the text order is not the time order - `..T12:00:00Z` sorts after `..T12:00:00.011900Z` - and a correctly ordered, complete run whose pipeline_start falls on a whole second is reported with `start_time_gt_end_time`" if verdict is False else "", getattr(src, "lineno", 0), what_ok="fixed-width rendering")
+        if verdict and dig is not None:
+            digits.setdefault(dig, (rel, qn, src))
+    if len(digits) > 1:
+        (d0, (rel0, qn0, _s0)), (d1, (rel1, qn1, s1)) = sorted(digits.items())[:2]
+        R.violation(rule, rel1, qn1, norm(stmt_of(s1), 110), f"this producer renders {d1} digits for the fraction of a second while `{qn0}` ({rel0}) renders {d0}: the aggregator orders the two kinds of stamps against each other as strings when it derives a missing lifecycle time from the SER timing (a prefix without pipeline_end), and `..00.011Z` sorts after `..00.011900Z`", getattr(s1, "lineno", 0))
+    elif digits:
+        (d0, (rel0, qn0, s0)), = digits.items()
+        R.ok(rule, rel0, qn0, "all producers render the same fraction of a second", f"{d0} digits", getattr(s0, "lineno", 0))
+
+
 def run(repo: Repo, R: Report) -> None:
     try:
         _run(repo, R)
@@ -2177,6 +2473,8 @@ def _run(repo: Repo, R: Report) -> None:
     config = _config_attrs(cls)
     model_classes = {c.name for c in repo.module(MODELS).tree.body if isinstance(c, ast.ClassDef)}
     launch_key_fields: Dict[str, Set[str]] = {}
+    held_paths: Dict[str, Set[Tuple[str, ...]]] = {}  # aggregate field -> (record type, key, ..) of the record values it holds
+    ordered_fields: Set[Tuple[str, Tuple[str, ...]]] = set()
     for hid, (hmod, handler, hcall) in first_call.items():
         types = types_of[hid]
         qual = qualname_of(handler)
@@ -2190,6 +2488,21 @@ def _run(repo: Repo, R: Report) -> None:
             if isinstance(n, ast.Assign) and len(n.targets) == 1 and isinstance(n.targets[0], ast.Name):
                 if _is_record_read(n.value, rec) or any(isinstance(x, ast.Name) and x.id in derived for x in ast.walk(n.value)):
                     derived[n.targets[0].id] = n.value
+        # fields of the record whose values are ordered as they come (for the producer agreement of D4)
+        lv = lambda nm, _fn=fn: assigned_value(_fn, nm)  # noqa: E731
+        for n in walk_no_nested(fn):
+            if isinstance(n, (ast.Assign, ast.AnnAssign)) and n.value is not None:
+                for t in (n.targets if isinstance(n, ast.Assign) else [n.target]):
+                    if isinstance(t, ast.Attribute):
+                        for p in record_read_paths(n.value, rec, lv, {}):
+                            if p[0] == _REC and len(p) > 1:
+                                for T_ in types:
+                                    held_paths.setdefault(t.attr, set()).add((T_,) + p[1:])
+        for o in ordered_operands(fn):
+            for p in record_read_paths(o, rec, lv, held_paths):
+                for T_ in (types if p[0] == _REC else {p[0]}):
+                    if len(p) > 1:
+                        ordered_fields.add((T_, p[1:]))
         keys_of = registration_keys(fn, state, model_classes)
         if types <= set(RS_EDGES):
             kf = record_fields_read([derived[nm] for nm in sorted(keys_of.all) if nm in derived] + list(keys_of.key_exprs), rec)
@@ -2265,6 +2578,14 @@ def _run(repo: Repo, R: Report) -> None:
     check_launch_key_agreement(R, r_key, repo, launch_key_fields)
     r_fh = R.rule("C13-D4-one-handle-per-trace-file", "a class that writes trace records keeps at most one open handle per file: two `open` sites kept in different write-through attributes never both open the configured path itself - the line order of a trace file is the emission order, which is what makes `run_space_start` / `pipeline_start` the first record of every crash prefix (the rows of the verdict table that are constrained)", 2)
     check_one_handle_per_file(R, r_fh, repo)
+    r_txt = R.rule("C13-D4-ordered-stamps-are-fixed-width", "every value the runtime writes into a record field that the aggregator orders as it comes (`<` / `>` / min / max on the strings: run start / end merges, `start_timestamp > end_timestamp`, the fall-back from SER timing) is a rendering of the clock whose width does not depend on the instant (isoformat with an explicit timespec, strftime), and all producers render the same number of digits of the fraction of a second: only then is the order of the texts the order of the instants. Followed from the record builders (constant record_type) through locals, parameters and helper results to the expression that renders the clock", 3)
+    fin = nfunc(repo, AGG, f"{CLS}.finalize_run")
+    flv = lambda nm, _fn=fin: assigned_value(_fn, nm)  # noqa: E731
+    for o in ordered_operands(fin):
+        for p in record_read_paths(o, "<no record here>", flv, held_paths):
+            if p[0] != _REC and len(p) > 1:
+                ordered_fields.add((p[0], p[1:]))
+    check_time_text_order(R, r_txt, repo, ordered_fields)
 
     # ---------------------------------------------------------------- D2
     r_of = R.rule("C13-D2-order-free-verdicts", "completeness fields built from sets/dicts are sorted; finalisation writes into aggregator state (directly or through a local that aliases it) only idempotent min/max fall-backs", 5)
@@ -2414,6 +2735,30 @@ def _run(repo: Repo, R: Report) -> None:
         elif incs and counts_var is None:
             counts_var = incs[0].target.value.id
     R.check(ok, r_tab, AGG, f"{CLS}.finalize_launch", loop_stmt, "launch roll-up does not count every run's own verdict", fl.lineno)
+    r_roll = R.rule("C13-D3-rollup-reaches-every-verdict", "the roll-up a launch verdict publishes is the counter of its runs' verdicts for every launch state: every path from the entry of finalize_launch to the construction of the verdict of a known launch runs the counting loop over the launch's runs (CFG: the loop header is passed on every path, whatever lifecycle edges were seen), and the counter it fills is what the verdict's summary carries", 2)
+    counting = [lp for lp, _enum in loops if counts_var is not None and any(isinstance(n, ast.AugAssign) and isinstance(n.target, ast.Subscript) and isinstance(n.target.value, ast.Name) and n.target.value.id == counts_var for n in walk_no_nested(lp))]
+    if counting and counts_var is not None:
+        lg = _cfg_of(fl)
+        loop_nodes = {x for lp in counting for x in lg.nodes_for(lp)}
+        built_at = lg.nodes_for(stmt_of(lctor))
+        if not loop_nodes or not built_at:
+            raise AnalysisError("finalize_launch: no CFG node for the roll-up loop / the construction of the launch verdict")
+        bad = lg.must_pass([lg.entry], built_at, lambda nd: nd.id in loop_nodes, skip_labels={"EXC", "BASE"})
+        R.check(not bad, r_roll, AGG, f"{CLS}.finalize_launch", norm(counting[0], 100), f"the verdict of a known launch is built (L{getattr(lctor, 'lineno', 0)}) on a path that never runs the loop counting the runs' verdicts into `{counts_var}`: for the launch states on that path (e.g. a launch cut before run_space_end) the published roll-up stays all zeros while the runs have verdicts of their own - the launch roll-up is not the counts of its runs' verdicts for every prefix of a launch trace", getattr(counting[0], "lineno", 0), path=bad[0][1] if bad else None, what_ok="the counting loop is passed on every path to the verdict")
+        # the counter is what the verdict carries
+        sv = kwarg(lctor, "summary")
+        carriers: List[ast.AST] = []
+        if sv is not None:
+            carriers.append(sv)
+            if isinstance(sv, ast.Name):
+                carriers += assigned_value(fl, sv.id)
+                for n in walk_no_nested(fl):
+                    if isinstance(n, ast.Assign) and any(isinstance(t, ast.Subscript) and _root_name(t) == sv.id for t in n.targets):
+                        carriers.append(n.value)
+                    if isinstance(n, ast.Call) and isinstance(n.func, ast.Attribute) and n.func.attr in ("update", "setdefault", "__setitem__") and _root_name(n.func) == sv.id:
+                        carriers += list(n.args) + [k.value for k in n.keywords]
+        carried = any(isinstance(x, ast.Name) and x.id == counts_var and isinstance(x.ctx, ast.Load) for c in carriers for x in ast.walk(c))
+        R.check(carried, r_roll, AGG, f"{CLS}.finalize_launch", f"summary carries `{counts_var}`", f"the summary handed to the launch verdict does not carry the counter `{counts_var}` filled from the runs' verdicts: the published roll-up is something else than the counts of the launch's runs' verdicts", getattr(lctor, "lineno", 0), what_ok="roll-up published from the counter")
     if counts_var is not None:
         init = assigned_value(fl, counts_var)
         fresh = len(init) == 1 and isinstance(init[0], ast.Dict) and all(isinstance(v, ast.Constant) and v.value == 0 for v in init[0].values) and {k.value for k in init[0].keys if isinstance(k, ast.Constant)} == {"complete", "partial", "invalid"}
@@ -2487,6 +2832,7 @@ def _run(repo: Repo, R: Report) -> None:
             defs = [(ctor_stmt, v)]
         ok = False
         guard_ok = True
+        extra_cond: Optional[Tuple[ast.AST, ast.AST]] = None
         for d, val in defs:
             subs = [b for b in ast.walk(val) if isinstance(b, ast.BinOp) and isinstance(b.op, ast.Sub)]
             ok = ok or any(lf(b.left) and rf(b.right) for b in subs)
@@ -2499,10 +2845,12 @@ def _run(repo: Repo, R: Report) -> None:
                 for x in ast.walk(t):
                     if isinstance(x, ast.Name) and not is_exp(x) and x.id not in ("len", "bool"):
                         guard_ok = False
+                        extra_cond = extra_cond or (t, x)
                     if isinstance(x, ast.Attribute) and _root_name(x) == runv and not x.attr == "pipeline_spec_canonical":
                         guard_ok = False
+                        extra_cond = extra_cond or (t, x)
         R.check(ok, r_tab, AGG, f"{CLS}.finalize_run", f"{kw} = {txt}", f"{kw} is not the set difference {txt} (expected = _expected_nodes(<run>.pipeline_spec_canonical), observed = keys of <run>.nodes)", ctor.lineno)
-        R.check(guard_ok, r_tab, AGG, f"{CLS}.finalize_run", f"{kw} computed whenever the canonical spec is known", f"{kw} is only computed under an extra condition (e.g. only when some SER was seen): a run cut right after pipeline_start reports no missing nodes", ctor.lineno)
+        R.check(guard_ok, r_tab, AGG, f"{CLS}.finalize_run", f"{kw} computed whenever the canonical spec is known", f"{kw} is only computed under an extra condition" + (f" (`{norm(extra_cond[0], 70)}` reads `{ast.unparse(extra_cond[1])}`" + (f" = `{norm(assigned_value(fr, extra_cond[1].id)[0], 70)}`" if isinstance(extra_cond[1], ast.Name) and len(assigned_value(fr, extra_cond[1].id)) == 1 else "") + ")" if extra_cond else "") + ": for the runs / prefixes where it is false the verdict reports no missing (orphan) nodes although canonical nodes have no SER - the documented value is the set difference whenever the canonical spec is known", ctor.lineno)
     # observed = keys of run.nodes; expected from the stored canonical spec
     R.check(bool(obs_names) or any(_d(x) in obs_forms - {_d(_expr(f"{runv}.nodes"))} for x in ast.walk(fr)), r_tab, AGG, f"{CLS}.finalize_run", "observed_nodes = set(run.nodes)", "observed nodes are not the nodes with a SER", fr.lineno)
     R.check(bool(exp_names) or any(is_exp_call(x) for x in ast.walk(fr)), r_tab, AGG, f"{CLS}.finalize_run", "expected from run.pipeline_spec_canonical", "expected nodes do not come from the run's canonical spec", fr.lineno)
